@@ -76,8 +76,9 @@ CORRUPT = {
 }
 
 RULE = ("cases = every maximal setter sequence reached by TLC in the bounded MassLedger configs (components: set_mass x "
-        "{None,Extensive,Intensive} x {None,1,2,4 kg}, expunge, from every known/unknown pattern of (mass, specific, rating); "
-        "locomotives in 1-2 unit consists under a train: set_mass / set_mu x 3 options / set_force_max x 5 options / expunge "
+        "{None,Extensive,Intensive} x {None,1,2,4 kg, derived mass x (1 +- 2^-12)}, expunge, from every known/unknown pattern of "
+        "(mass, specific, rating); "
+        "conventional / battery-electric / hybrid locomotives in 1-2 unit consists under a train: set_mass / set_mu x 3 options / set_force_max x 5 options / expunge "
         "from every known/unknown pattern of (mass, mu, derived mass); every file with consistent / inconsistent redundant "
         "data) + seeded longer random walks; component cases run on FuelConverter, Generator and ReversibleEnergyStorage, "
         "files through from_json and from_yaml; distinct = distinct case descriptors (sha256); non-trivial = at least one "
@@ -90,7 +91,9 @@ ASSUME = ["dyadic lattice (multiples of 1/64): every f64 operation of the setter
           "from a clone of the pre-call object (one anomaly = one record; neither changes anything on the current tree)",
           "Traction is stated on the locomotive's own mass parameter: after an explicit ...ToNone option a mass derived from "
           "components does not bind force_max",
-          "HybridLoco / DummyLoco units and RailVehicle / TrainState setters (all unconditional errors) are not driven"]
+          "an off-grid value (the specific power / energy an Intensive side effect computes for a near-equal mass) is logged as the "
+          "sentinel -3; component relations are stated on the getters as well, so such records are judged too",
+          "DummyLoco units and RailVehicle / TrainState setters (all unconditional errors) are not driven"]
 
 
 def _vac(r):
@@ -117,10 +120,12 @@ GROUP = dict(
     model_spec="MCMassLedger.tla", trace_spec="MassLedgerTrace.tla", trace_cfg="MassLedgerTrace.cfg",
     models={
         "quick": [dict(cfg="MCMassLedger_loads.cfg", emit=True, workers=4, timeout=120, may_be_zero=("Call",)),
+                  dict(cfg="MCMassLedger_near.cfg", emit=True, workers=4, timeout=120, may_be_zero=("Load",)),   # near-equal updates, every one replayed
                   dict(cfg="MCMassLedger_quickC.cfg", may_be_zero=("Load",), emit=True, max_emit=3000, workers=8, timeout=120),
                   dict(cfg="MCMassLedger_quickL1.cfg", emit=True, max_emit=6000, workers=8, timeout=180, coverage=False),
                   dict(cfg="MCMassLedger_quickL2.cfg", may_be_zero=("Load",), emit=True, max_emit=3000, workers=8, timeout=180)],
         "thorough": [dict(cfg="MCMassLedger_loads.cfg", emit=True, workers=4, timeout=120, may_be_zero=("Call",)),
+                  dict(cfg="MCMassLedger_near.cfg", emit=True, workers=4, timeout=120, may_be_zero=("Load",)),   # near-equal updates, every one replayed
                      dict(cfg="MCMassLedger_thoroughC.cfg", may_be_zero=("Load",), emit=True, max_emit=15000, workers=8, timeout=900),
                      dict(cfg="MCMassLedger_thoroughL1.cfg", emit=True, max_emit=40000, workers=8, timeout=1800, may_be_zero=("Load",)),
                      dict(cfg="MCMassLedger_thoroughL2.cfg", may_be_zero=("Load",), emit=True, max_emit=15000, workers=8, timeout=1800),
@@ -157,8 +162,8 @@ ENGINE = dict(name="MassLedger", path="specs/MassLedger.tla", serves_properties=
                              "locomotives-in-a-consist and the train built around them, every recorded state validated by TLC "
                              "(MassLedgerTrace.tla)")
 _NOTE = ("Trusted: TLC, serde's view of the private fields, the harness' Q-encoding (x64, force / g). Bounded: sequences of <= 3 calls "
-         "(4 in the thorough model-only config), masses 1/2/4 kg, specific 1/2,1,2, mu 1/4,1/2, force/g 1/2,1,2, conventional and "
-         "battery-electric units, 1-2 units, three car mixes; seeded random walks of 5-9 calls beyond. Four genuine locomotive-level "
+         "(4 in the thorough model-only config), masses 1/2/4 kg (and 64 kg x (1 +- 2^-12) for the near-equal updates), specific "
+         "1/2,1,2, mu 1/4,1/2, force/g 1/2,1,2,4, conventional, battery-electric and hybrid units, 1-2 units, three car mixes; seeded random walks of 5-9 calls beyond. Four genuine locomotive-level "
          "defects found by this check (F-C20-1, -3, -4, -5: assign-then-fail setters, expunge keeping baseline/ballast, unchecked "
          "force_max on load) were repaired in /repo; their inputs stay as regression cases and the pre-repair code is the fault "
          "model of bin/selftest.")
